@@ -25,6 +25,10 @@ package main
 //	          bx!<start>!<end>!<expr>      expression with scalar operands, unary minus, on()/ignoring(), nesting; <expr> in
 //	              prefix form:  v!<style>!<matchers>!<agg|->  |  s!<num>!<den>  |  n!<expr>  |
 //	              o!<op>!<0|1 bool>!<d|on|ig>!<l1+l2|->!<expr>!<expr>
+//	          fx!<start>!<end>!<expr>      the same expression sent through the FORMULA route (metrics explorer time series API,
+//	              metric alert evaluation): every distinct operand text becomes a named query a, b, … ({"name","query","qlType"}),
+//	              the expression over the names the formula; promql.ParseMetricTimeSeriesRequest + ProcessMetricsQueryRequest.
+//	              Same value as bx (Spec/Metrics.lean formulaJudged says where it is judged)
 //
 //	mc <n> <hexname> <sharedKey>=<hexv> <idKey> <ts> Q <query…>      CARDINALITY: n series name{sharedKey=v,idKey="s<i>"} with
 //	          the single point (ts, float64(i mod 50)), all ingested, no rotation before the queries: more than 65535 series
@@ -61,7 +65,7 @@ import (
 
 func init() {
 	register(&Suite{Name: "e2e_metrics", Parallel: 6, Gen: genE2EM, Exec: execE2EM,
-		Rule: "1..5 series (names sharing prefixes; tag sets differing in one value / one key / subsets; keys that are suffixes of other keys; TSID-preimage collision pairs; values with spaces, unicode, punctuation, JSON escapes, 65535/65536+ bytes, values sent as JSON numbers; series without tags) ingested as OpenTSDB JSON, through Prometheus remote write, or both within one series × float64 values from the adversarial Gorilla pool incl. -0 or small integers × timestamps (irregular steps at dod bucket edges, large gaps, bucket-aligned for every downsample interval used) × ingest histories with out-of-order points and 0..2 block and 0..2 segment rotations × selector and sum/min/max/avg/count by/without queries incl. range boundaries on points, regex on __name__, several matchers on one label; every fourth case: binary operators (+ - * / % ^, == != > < >= <= with and without bool, and/or/unless, default matching) between two operands (selector, selector with a matcher, aggregation) over two or three metrics whose names are prefixes of each other and that share some label sets and not others, label values over an alphabet with { } = \" \\ space unicode and the empty string, a few timestamps present on one side only; plus expressions (query token bx: scalar operands on either side incl. computed scalars, unary minus, on()/ignoring() over subsets of the keys for arithmetic, comparisons and and/or/unless, nesting up to depth 3, label values h-1 /api a.b 10.0.0.1:9100 *, zero divisors); plus (second metrics round) the label value \"*\" with matchers k=\"*\" / k!=\"*\", metric names and tag values spelled with and without a JSON escape within one series, tag values that are not strings or numbers (true / null / invalid escape: must be rejected whole), label-values requests through the HTTP handler, and crash + restart inside the history (WAL timers run once, process killed, recovery in a new process on the same data directory; mostly right after a pass of the tags-tree flush timer); plus cardinality lines (65535..131071 series sharing one tag value); each case in its own engine process(es), every query answered before and after a final rotation; non-trivial = ≥2 ingested points and ≥1 query"})
+		Rule: "1..5 series (names sharing prefixes; tag sets differing in one value / one key / subsets; keys that are suffixes of other keys; TSID-preimage collision pairs; values with spaces, unicode, punctuation, JSON escapes, 65535/65536+ bytes, values sent as JSON numbers; series without tags) ingested as OpenTSDB JSON, through Prometheus remote write, or both within one series × float64 values from the adversarial Gorilla pool incl. -0 or small integers × timestamps (irregular steps at dod bucket edges, large gaps, bucket-aligned for every downsample interval used) × ingest histories with out-of-order points and 0..2 block and 0..2 segment rotations × selector and sum/min/max/avg/count by/without queries incl. range boundaries on points, regex on __name__, several matchers on one label; every fourth case: binary operators (+ - * / % ^, == != > < >= <= with and without bool, and/or/unless, default matching) between two operands (selector, selector with a matcher, aggregation) over two or three metrics whose names are prefixes of each other and that share some label sets and not others, label values over an alphabet with { } = \" \\ space unicode and the empty string, a few timestamps present on one side only; plus expressions (query token bx: scalar operands on either side incl. computed scalars, unary minus, on()/ignoring() over subsets of the keys for arithmetic, comparisons and and/or/unless, nesting up to depth 3, label values h-1 /api a.b 10.0.0.1:9100 *, zero divisors); plus (second metrics round) the label value \"*\" with matchers k=\"*\" / k!=\"*\", metric names and tag values spelled with and without a JSON escape within one series, tag values that are not strings or numbers (true / null / invalid escape: must be rejected whole), label-values requests through the HTTP handler, and crash + restart inside the history (WAL timers run once, process killed, recovery in a new process on the same data directory; mostly right after a pass of the tags-tree flush timer); plus (binary-operator cases) operands REPEATED within one expression by construction — m * m, (m / m) - x, x + (m - m), with on()/ignoring() — on the PromQL route (textually identical selectors) and on the FORMULA route (query token fx: the metrics explorer / metric alert request with named queries through promql.ParseMetricTimeSeriesRequest + ProcessMetricsQueryRequest, a * a, a / a, a + a - b, a * 2), the repeated operand mostly the metric with the most series (two or more label sets), sometimes a single series, a selector with matchers or an aggregation; controls with two different operands and with a constant; plus cardinality lines (65535..131071 series sharing one tag value); each case in its own engine process(es), every query answered before and after a final rotation; non-trivial = ≥2 ingested points and ≥1 query"})
 }
 
 type mkv struct {
@@ -501,6 +505,107 @@ func genE2EMBinCase(r *rand.Rand) string {
 			x = "n!" + x
 		}
 		qtoks = append(qtoks, fmt.Sprintf("bx!%d!%d!%s", start, end, x))
+	}
+	// REPEATED OPERANDS and the FORMULA route.  One operand text occurs more than once in an expression (`m * m`, `(m + m) - x`),
+	// on the PromQL route (bx / bin: textually identical selectors) and on the formula route (fx: the metrics explorer / metric
+	// alert request with named queries, one name used twice: `a * a`, `a / a`, `a + a - b`); the repeated operand is mostly the
+	// metric with the most series (≥ 2 label sets most of the time), sometimes a single series, a selector with a matcher or
+	// an aggregation; controls: two different operands, a constant operand.
+	perName := map[string]int{}
+	for _, s := range sers {
+		perName[s.name]++
+	}
+	big, other := fam[0], fam[1]
+	for _, n := range fam[:nmet] {
+		if perName[n] > perName[big] {
+			big = n
+		}
+	}
+	for _, n := range fam[:nmet] {
+		if n != big && (other == big || perName[n] > perName[other]) {
+			other = n
+		}
+	}
+	plain := func(name string) string {
+		return []string{"b", "b", "n"}[r.Intn(3)] + "!__name__~eq~" + hexs(name) + "!-"
+	}
+	repOperand := func() string {
+		switch r.Intn(10) {
+		case 0: // a single series (mostly): a matcher on one label set of the pool
+			l := pool[r.Intn(len(pool))]
+			ms := []string{"__name__~eq~" + hexs(big)}
+			for _, kv := range l {
+				ms = append(ms, kv.k+"~eq~"+hexs(kv.v))
+			}
+			return "b!" + strings.Join(ms, ";") + "!-"
+		case 1:
+			return operand(big)
+		case 2: // one group per value of a key / one group
+			pb := plain(big)
+			return pb[:len(pb)-1] + []string{"sum", "max", "count"}[r.Intn(3)] + ":by:" + keyFam[r.Intn(len(keyFam))]
+		case 3:
+			return plain(other)
+		}
+		return plain(big)
+	}
+	arith := []string{"mul", "div", "sub", "add", "mul", "div", "sub", "add", "mod", "pow"}
+	cmps := []string{"eq", "ne", "gt", "ge", "lt", "le"}
+	anyOp := func() (string, string) {
+		switch x := r.Intn(10); {
+		case x < 6:
+			return arith[r.Intn(len(arith))], "0"
+		case x < 8:
+			return cmps[r.Intn(len(cmps))], []string{"0", "1"}[r.Intn(2)]
+		}
+		return []string{"and", "or", "unless"}[r.Intn(3)], "0"
+	}
+	repExpr := func() string {
+		x := "v!" + repOperand()
+		y := "v!" + plain(other)
+		if r.Intn(3) == 0 {
+			y = "v!" + operand(fam[r.Intn(nmet)])
+		}
+		op, b := anyOp()
+		op2 := arith[r.Intn(4)]
+		switch r.Intn(12) {
+		case 0: // control: two different operands
+			return fmt.Sprintf("o!%s!%s!d!-!%s!%s", op, b, x, y)
+		case 1: // control: a constant operand
+			return fmt.Sprintf("o!%s!0!d!-!%s!%s", arith[r.Intn(len(arith))], x, scalar())
+		case 2, 3: // (a ∘ a) ∘ b
+			return fmt.Sprintf("o!%s!0!d!-!o!%s!%s!d!-!%s!%s!%s", op2, op, b, x, x, y)
+		case 4: // a ∘ (a ∘ k)
+			return fmt.Sprintf("o!%s!%s!d!-!%s!o!%s!0!d!-!%s!%s", op, b, x, op2, x, scalar())
+		case 5: // b ∘ (a ∘ a)
+			return fmt.Sprintf("o!%s!0!d!-!%s!o!%s!%s!d!-!%s!%s", op2, y, op, b, x, x)
+		case 6: // a ∘ a with a matching clause
+			return fmt.Sprintf("o!%s!%s!%s!%s!%s!%s", op, b, []string{"on", "ig"}[r.Intn(2)], keyFam[r.Intn(len(keyFam))], x, x)
+		case 7: // (a ∘ a) ∘ a
+			return fmt.Sprintf("o!%s!0!d!-!o!%s!%s!d!-!%s!%s!%s", op2, op, b, x, x, x)
+		}
+		return fmt.Sprintf("o!%s!%s!d!-!%s!%s", op, b, x, x) // a ∘ a
+	}
+	for q := 2 + r.Intn(3); q > 0; q-- {
+		a, e := start, end
+		if r.Intn(8) == 0 { // a narrower window on the grid
+			a = grid[r.Intn(len(grid))]
+			e = a + step*uint32(1+r.Intn(300))
+		}
+		qtoks = append(qtoks, fmt.Sprintf("fx!%d!%d!%s", a, e, repExpr()))
+	}
+	for q := 1 + r.Intn(2); q > 0; q-- {
+		qtoks = append(qtoks, fmt.Sprintf("bx!%d!%d!%s", start, end, repExpr()))
+	}
+	if r.Intn(2) == 0 {
+		op, b := anyOp()
+		x := repOperand()
+		qtoks = append(qtoks, fmt.Sprintf("bin!%s!%s!%d!%d!%s!%s", op, b, start, end, x, x))
+	}
+	if r.Intn(3) == 0 { // an expression of the general generator through the formula route
+		nv := 0
+		if x, vec := genExpr(0, &nv, true); vec {
+			qtoks = append(qtoks, fmt.Sprintf("fx!%d!%d!%s", start, end, x))
+		}
 	}
 	toks := []string{"me"}
 	for _, s := range sers {
@@ -1226,6 +1331,18 @@ type mQuery struct {
 	lv         string // label-values request for this label
 	nvec       int    // expressions: number of vector operands
 	tags       []string
+	formula    string      // fx: the formula over the named queries (FORMULA path)
+	fqueries   [][2]string // fx: name, PromQL text of the named queries, in the order of first use
+	leaves     []string    // bx / fx: the operand tokens <style>!<matchers>!<agg> of the vector leaves, in order
+}
+
+// the JSON body of POST /metrics-explorer/api/v1/timeseries (the same text is stored as the query parameters of a metric alert)
+func (q mQuery) formulaBody() string {
+	var qs []string
+	for _, nq := range q.fqueries {
+		qs = append(qs, fmt.Sprintf(`{"name":%s,"query":%s,"qlType":"promql"}`, jsonStr(nq[0]), jsonStr(nq[1])))
+	}
+	return fmt.Sprintf(`{"start":%d,"end":%d,"queries":[%s],"formulas":[{"formula":%s}]}`, q.start, q.end, strings.Join(qs, ","), jsonStr(q.formula))
 }
 
 var mBinOpText = map[string]string{"add": "+", "sub": "-", "mul": "*", "div": "/", "mod": "%", "pow": "^", "eq": "==", "ne": "!=",
@@ -1265,9 +1382,13 @@ func parseMBinQuery(tok string) (q mQuery, ok bool) {
 // bx!<start>!<end>!<expr in prefix form>
 func parseMExprQuery(tok string) (q mQuery, ok bool) {
 	p := strings.Split(tok, "!")
-	if len(p) < 5 || p[0] != "bx" {
+	if len(p) < 5 || (p[0] != "bx" && p[0] != "fx") {
 		return
 	}
+	isFormula := p[0] == "fx"
+	nameOf := map[string]string{} // fx: PromQL text of a leaf → name of the query (a, b, c, …: one name per distinct text)
+	var fqueries [][2]string
+	var leaves, leafText, leafName []string
 	a, e1 := strconv.ParseUint(p[1], 10, 32)
 	b, e2 := strconv.ParseUint(p[2], 10, 32)
 	if e1 != nil || e2 != nil || a > b || !mDigits.MatchString(p[1]) || !mDigits.MatchString(p[2]) {
@@ -1294,7 +1415,19 @@ func parseMExprQuery(tok string) (q mQuery, ok bool) {
 				return "", false, nil, false
 			}
 			q.nvec++
-			return "(" + oq.promql + ")", true, t[4:], true
+			leaves = append(leaves, strings.Join(t[1:4], "!"))
+			leafText = append(leafText, oq.promql)
+			nm, seen := nameOf[oq.promql]
+			if !seen {
+				if len(nameOf) >= 8 {
+					return "", false, nil, false
+				}
+				nm = string(rune('a' + len(nameOf)))
+				nameOf[oq.promql] = nm
+				fqueries = append(fqueries, [2]string{nm, oq.promql})
+			}
+			leafName = append(leafName, nm)
+			return fmt.Sprintf("(\x01%d\x01)", len(leaves)-1), true, t[4:], true
 		case "s":
 			if len(t) < 3 || !regexp.MustCompile(`^-?[0-9]{1,6}$`).MatchString(t[1]) || !regexp.MustCompile(`^[0-9]{1,4}$`).MatchString(t[2]) {
 				return "", false, nil, false
@@ -1377,12 +1510,110 @@ func parseMExprQuery(tok string) (q mQuery, ok bool) {
 	if !okx || len(rest) != 0 {
 		return mQuery{}, false
 	}
-	q.promql = text
+	// the leaves were written as placeholders: the PromQL text has (the text of) every operand in their place, the formula
+	// the NAME of the query with that text (one name per distinct text, as a user of the metrics explorer writes it)
+	fill := func(with []string) string {
+		out := text
+		for i := len(with) - 1; i >= 0; i-- {
+			out = strings.ReplaceAll(out, fmt.Sprintf("\x01%d\x01", i), with[i])
+		}
+		return out
+	}
+	q.promql = fill(leafText)
+	q.leaves = leaves
+	if isFormula {
+		q.formula, q.fqueries = fill(leafName), fqueries
+		tagset["route:formula"] = true
+	} else {
+		tagset["route:promql"] = true
+	}
+	distinct := map[string]bool{}
+	for _, l := range leaves {
+		distinct[l] = true
+	}
+	if len(distinct) < len(leaves) {
+		tagset["expr:repeated-selector"] = true
+	}
 	for t := range tagset {
 		q.tags = append(q.tags, t)
 	}
 	sort.Strings(q.tags)
 	return q, true
+}
+
+// DISTRIBUTION TAGS only (nothing is judged with it): roughly how many elements the vector of an operand token
+// <style>!<matchers>!<agg|-> has over the given series (absent label = "", regex anchored)
+func mLeafElems(sers []mser, leaf string) int {
+	p := strings.Split(leaf, "!")
+	if len(p) != 3 {
+		return 0
+	}
+	type m struct{ k, op, v string }
+	var ms []m
+	for _, x := range strings.Split(p[1], ";") {
+		y := strings.Split(x, "~")
+		if len(y) != 3 {
+			return 0
+		}
+		vb, _ := hex.DecodeString(y[2])
+		ms = append(ms, m{y[0], y[1], string(vb)})
+	}
+	groups := map[string]bool{}
+	var byKeys []string
+	mode := ""
+	if p[2] != "-" {
+		a := strings.Split(p[2], ":")
+		if len(a) == 3 {
+			mode = a[1]
+			if a[2] != "-" {
+				byKeys = strings.Split(a[2], "+")
+			}
+		}
+	}
+	for _, s := range sers {
+		if len(s.pts) == 0 || mRejectClass(s) != "" {
+			continue
+		}
+		ok := true
+		for _, x := range ms {
+			v := ""
+			if x.k == "__name__" {
+				v = s.name
+			}
+			for _, kv := range s.labels {
+				if kv.k == x.k && x.k != "__name__" {
+					v = kv.v
+				}
+			}
+			var hit bool
+			switch x.op {
+			case "eq", "ne":
+				hit = v == x.v
+			default:
+				re, err := regexp.Compile("^(?:" + x.v + ")$")
+				hit = err == nil && re.MatchString(v)
+			}
+			if x.op == "ne" || x.op == "nre" {
+				hit = !hit
+			}
+			ok = ok && hit
+		}
+		if !ok {
+			continue
+		}
+		var key []mkv
+		for _, kv := range s.labels {
+			in := false
+			for _, k := range byKeys {
+				in = in || k == kv.k
+			}
+			if mode == "" || (mode == "by" && in) || (mode == "wo" && !in) {
+				key = append(key, kv)
+			}
+		}
+		groups[canonLabels(key)] = true
+	}
+	return len(groups)
 }
 
 var mDigits = regexp.MustCompile(`^[0-9]{1,10}$`)
@@ -1392,7 +1623,7 @@ func parseMQuery(tok string) (q mQuery, ok bool) {
 	if strings.HasPrefix(tok, "bin!") {
 		return parseMBinQuery(tok)
 	}
-	if strings.HasPrefix(tok, "bx!") {
+	if strings.HasPrefix(tok, "bx!") || strings.HasPrefix(tok, "fx!") {
 		return parseMExprQuery(tok)
 	}
 	if strings.HasPrefix(tok, "lv/") {
@@ -1803,6 +2034,8 @@ func execE2EM(line string) Result {
 		for _, q := range qs {
 			if q.lv != "" {
 				fmt.Fprintf(&in, "lv %s %d %d\n", hexs(q.lv), q.start, q.end)
+			} else if q.formula != "" {
+				fmt.Fprintf(&in, "fq %d %d %s\n", q.start, q.end, hexs(q.formulaBody()))
 			} else {
 				fmt.Fprintf(&in, "q %d %d %s\n", q.start, q.end, hexs(q.promql))
 			}
@@ -1970,6 +2203,33 @@ func execE2EM(line string) Result {
 	}
 	for _, q := range qs {
 		tg = append(tg, q.tags...)
+		if len(q.leaves) > 0 {
+			// repeated operands: the same operand text more than once in one expression; multi-series = its vector has ≥ 2 elements
+			route := "promql"
+			if q.formula != "" {
+				route = "formula"
+			}
+			cnt := map[string]int{}
+			multi := 0
+			for _, l := range q.leaves {
+				cnt[l]++
+				if mLeafElems(sers, l) >= 2 {
+					multi++
+				}
+			}
+			for l, c := range cnt {
+				if c >= 2 {
+					if mLeafElems(sers, l) >= 2 {
+						tg = append(tg, "repeated-multi-series:"+route)
+					} else {
+						tg = append(tg, "repeated-single-series:"+route)
+					}
+				}
+			}
+			if q.formula != "" {
+				tg = append(tg, fmt.Sprintf("formula:multi-series-operands=%d", min(multi, 3)))
+			}
+		}
 		if q.lv != "" {
 			tg = append(tg, "q:label-values")
 		}
